@@ -57,6 +57,18 @@ async def _build_cases_async(storage_name: str):
     kopf.on.delete(*R, registry=registry, id='deleteopt', optional=True)(mk('deleteopt'))
     kopf.on.resume(*R, registry=registry, id='resume')(mk('resume'))
     kopf.on.resume(*R, registry=registry, id='resumedel', deleted=True)(mk('resumedel'))
+    # a namesake: another kind with the same plural in another group, watched for a field of the status; one of its objects is seen first.
+    # The classification of an object of the one kind follows from that object alone -- not from what the other kind declares
+    TW = ('other.example.com', 'v1', 'things')
+    kopf.on.update(*TW, registry=registry, id='tw_f', field='status.other')(mk('tw_f'))
+    kopf.on.create(*TW, registry=registry, id='tw_c')(mk('tw_c'))
+    tw_raw = {'apiVersion': 'other.example.com/v1', 'kind': 'Thing', 'metadata': {'name': 'o', 'namespace': 'ns', 'uid': 'u0', 'resourceVersion': '3'},
+              'spec': {'x': 1}, 'status': {'other': 0}}
+    tw_body = bodies.Body(tw_raw)
+    processing._detect_causes(
+        indexers=indexing.OperatorIndexers(), registry=registry, settings=settings, resource=references.Resource(*TW, namespaced=True),
+        raw_event={'type': 'ADDED', 'object': tw_raw}, body=tw_body, patch=patches.Patch(), memory=inventory.ResourceMemory(),
+        local_logger=loggers.LocalObjectLogger(body=tw_body, settings=settings), event_logger=loggers.LocalObjectLogger(body=tw_body, settings=settings))
 
     recs = []
     for ev, deleting, blocked, stored, nbl, fho, foreign, bare in itertools.product(
